@@ -87,6 +87,12 @@ def gen_cases(rng, tier):
         for n in range(1, maxlen + 1):
             for h in itertools.product("wfcx", repeat=n):
                 cases.append({"kind": "life", "adapter": adapter, "hist": "".join(h)})
+    # a with-block left by an EXCEPTION ('X'): the writer is flushed and closed all the same
+    for adapter in ADAPTERS:
+        for n in range(1, min(maxlen, 3) + 1):
+            for h in itertools.product("wfX", repeat=n):
+                if "X" in h:
+                    cases.append({"kind": "life", "adapter": adapter, "hist": "".join(h)})
     # histories with a REFUSED write ('e': a record the adapter cannot store - an integer beyond 64 bits for SQLite, text
     # with a lone surrogate for the binary stream) after which the caller carries on: nothing else may be lost
     for adapter in ("sqlite", "stream"):
@@ -307,6 +313,9 @@ def _apply_ops(w, hist, mk):
                 w.close()
             elif op == "x":
                 w.__exit__(None, None, None)
+            elif op == "X":
+                # the with-block is left by an exception raised in its body
+                w.__exit__(ValueError, ValueError("boom"), None)
             outcomes.append("ok")
         except Exception as e:
             outcomes.append("raised:" + type(e).__name__)
@@ -500,7 +509,7 @@ def run_real(case):
 
 def _first_closing(hist):
     for i, c in enumerate(hist):
-        if c in "cx":
+        if c in "cxX":
             return i
     return len(hist)
 
@@ -521,7 +530,7 @@ def _oracle_life(case, obs):
             if out == "ok":
                 return f"write #{i} of a record the {case['adapter']} adapter cannot store returned normally"
             i += 1
-        elif op in "cx":
+        elif op in "cxX":
             if opened and out != "ok":
                 return f"{'close' if op == 'c' else 'with-exit'} of an open {case['adapter']} writer raised ({out})"
             opened = False
@@ -727,7 +736,7 @@ def compare(case, obs, m):
 def nontrivial(case, obs):
     k = case["kind"]
     if k == "life":
-        return "w" in case["hist"][:_first_closing(case["hist"]) + 1] and any(c in case["hist"] for c in "cx")
+        return "w" in case["hist"][:_first_closing(case["hist"]) + 1] and any(c in case["hist"] for c in "cxX")
     if k == "split":
         return len(obs["parts"]) >= 2
     if k == "tmpl":
